@@ -160,7 +160,13 @@ def _validate_union(datum, schema, named_schemas, parent_ns, raise_errors, optio
     Check that the data is a list type with possible options to
     validate as True.
     """
-    if isinstance(datum, tuple) and not options.get("disable_tuple_notation"):
+    # Only a pair can be the (name, value) notation; any other tuple is a
+    # plain sequence (unpacking it here would raise instead of answering)
+    if (
+        isinstance(datum, tuple)
+        and len(datum) == 2
+        and not options.get("disable_tuple_notation")
+    ):
         (name, datum) = datum
         for candidate in schema:
             if extract_record_type(candidate) == "record":
